@@ -426,3 +426,72 @@ func c08Stutter(c *vrep.Ctx) {
 		}
 	})
 }
+
+// c08Short: small corpora whose ONLY (or shortest) document is long in bytes because of a few very
+// long words; inputs are that document with every single word and every pair of words deleted or
+// replaced by a one-letter word (few bytes left, most of the words still there). MatchFrom, Match
+// and Match behind 100 blanks must agree: nothing may depend on the byte length of the input,
+// which only Match knows in advance.
+func init() { vRegister("c08_short", c08Short) }
+
+func c08Short(c *vrep.Ctx) {
+	docs := []string{
+		"permission to use this software is granted under the terms published at https://www.example.org/licenses/very/long/path/to/the/license/text/version-2.0.html and mirrored at https://mirror.example.net/another/extremely/long/location/of/the/same/license/text.html provided that this notice stays",
+		"aa bb cc dd ee ff gg hh ii jj kk ll mm nn oo pp qq rr ss tt supercalifragilisticexpialidociousnessandthensomemorelettersjusttobesure antidisestablishmentarianismantidisestablishmentarianism",
+	}
+	ts := []float64{0.5, 0.8, 0.9}
+	type cfg struct {
+		cl *Classifier
+		t  float64
+		d  int
+	}
+	var cfgs []cfg
+	for di, d := range docs {
+		for _, t := range ts {
+			cl := NewClassifier(t)
+			cl.AddContent("License", fmt.Sprintf("Long%d", di), "license.txt", []byte(d))
+			cfgs = append(cfgs, cfg{cl, t, di})
+		}
+	}
+	c.R.Rule = fmt.Sprintf("%d one-document corpora (a 30-word text with two 80-byte URLs; 20 two-letter words + two 70-byte words) x thresholds %v x the document with EVERY single word and EVERY pair of words deleted / replaced by a one-letter word: MatchFrom (one read, and 7-byte reads), Match and Match behind 100 blanks must return the same Results; non-trivial = cases with a match", len(docs), ts)
+	body := func(r *vx.Run) {
+		ci := r.Choose(len(cfgs), "corpus")
+		cf := cfgs[ci]
+		w := strings.Fields(docs[cf.d])
+		a := r.Choose(len(w), "first word")
+		b := a + r.Choose(len(w)-a, "second word (= first: single)")
+		kind := r.Choose(2, "delete / replace")
+		ws := append([]string(nil), w...)
+		for _, p := range []int{a, b} {
+			if kind == 0 {
+				ws[p] = ""
+			} else {
+				ws[p] = "x"
+			}
+		}
+		in := []byte(strings.Join(strings.Fields(strings.Join(ws, " ")), " "))
+		m := vFmt(cf.cl.Match(in))
+		msg := ""
+		r1, err := cf.cl.MatchFrom(bytes.NewReader(in))
+		if got := vFmt(r1); got != m || err != nil {
+			msg = fmt.Sprintf("MatchFrom gives %s (err %v), Match %s", got, err, m)
+		}
+		r2, err := cf.cl.MatchFrom(&c08StutterReader{data: in, chunk: 7, total: (len(in) + 6) / 7})
+		if got := vFmt(r2); (got != m || err != nil) && msg == "" {
+			msg = fmt.Sprintf("MatchFrom with 7-byte reads gives %s (err %v), Match %s", got, err, m)
+		}
+		if got := vFmt(cf.cl.Match(append([]byte(strings.Repeat(" ", 100)), in...))); got != m && msg == "" {
+			msg = fmt.Sprintf("Match behind 100 blanks gives %s, Match %s", got, m)
+		}
+		r.Note = map[string]interface{}{"id": fmt.Sprintf("doc%d T=%v words %d,%d %s", cf.d, cf.t, a, b, []string{"deleted", "replaced"}[kind]), "msg": msg, "nt": strings.Contains(m, " | ")}
+	}
+	c.Run(vSplitExplorer(c, 0, 2), body, func(r *vx.Run) {
+		id := r.Note["id"].(string)
+		if r.Note["nt"].(bool) {
+			c.Nontrivial(id)
+		}
+		if m := r.Note["msg"].(string); m != "" {
+			c.Violate("c08_short:"+strings.ReplaceAll(id, " ", "_"), id+": "+m, r, m)
+		}
+	})
+}
